@@ -84,6 +84,7 @@ type runState struct {
 	dfs          [][]string
 	dfsErr       []error
 	curWriter    []*simWriter // the sink currently configured per graph
+	lostPayload  string       // what the single rejected Write (Writer.ErrOnly) carried
 	midHi, midLo []int        // largest / smallest limit a task set through SetMaxParallel while its graph was running (0: none)
 	dfsSkipped   []bool       // no sequential DepthFirstSort before the run: the concurrent ones come first
 	innerRunning bool         // the inner graph's Run (Scenario.Inner) has been called and has not returned
@@ -155,7 +156,7 @@ type skipIs struct{ why string }
 func (e skipIs) Error() string        { return "nothing to do: " + e.why }
 func (e skipIs) Is(target error) bool { return target == dag.ErrorSkipParents }
 func isErr(res string) bool {
-	return res == "err" || res == "errs0" || res == "errs1" || res == "errctx"
+	return res == "err" || res == "errs0" || res == "errs1" || res == "errctx" || res == "errsk"
 }
 
 // ctxLikeErr is what a task returns when its own, private timeout expired: it wraps
@@ -223,6 +224,14 @@ func (w *simWriter) Write(p []byte) (int, error) {
 		simrt.Unlock()
 		return 0, errors.New("write on closed pipe (injected)")
 	}
+	if r.sc.Writer.ErrOnly > 0 && r.nWrites == r.sc.Writer.ErrOnly {
+		// a hiccup of the sink: this one Write is rejected, nothing of it is consumed, the next ones work
+		r.res.Faults["writer_error_once"]++
+		r.lostPayload += string(p)
+		r.inWrite[w.g] = false
+		simrt.Unlock()
+		return 0, errors.New("temporary failure of the sink (injected)")
+	}
 	if r.sc.Writer.Yield {
 		r.res.Faults["writer_yield"]++
 		simrt.Unlock()
@@ -268,7 +277,10 @@ func (noCopyWriter) Unlock() {}
 // decided by the scenario: Done() is the embedded cancel context's channel (so the standard library
 // still recognises it as one of its own and starts no watcher goroutine), Err() reports
 // DeadlineExceeded once it is closed.
-type deadlineCtx struct{ context.Context }
+type deadlineCtx struct {
+	context.Context
+	at time.Time
+}
 
 func (d deadlineCtx) Err() error {
 	if d.Context.Err() != nil {
@@ -277,9 +289,9 @@ func (d deadlineCtx) Err() error {
 	return nil
 }
 
-func (d deadlineCtx) Deadline() (time.Time, bool) {
-	return time.Date(2026, 1, 2, 0, 0, 0, 0, time.UTC), true
-}
+// Deadline: the instant at which the scenario will end the context when that is known in advance (a
+// timed cancellation), the past for a context that is already over, otherwise far away.
+func (d deadlineCtx) Deadline() (time.Time, bool) { return d.at, true }
 
 // spinLimit: this many consecutive rejected writes mean somebody retries a persistently failing
 // write in a loop (each retry is a few scheduler steps; the run would otherwise hit the step cap).
@@ -650,6 +662,14 @@ func (r *runState) taskFn(i, alt int, cancel context.CancelFunc) getoptions.Comm
 				}
 			}
 			return r.errsVal[i]
+		case "errsk": // the task forwards an entry of a nested graph's report: its own error wraps dag.ErrorTaskSkipped
+			if k >= R {
+				r.res.Faults["task_error_wraps_task_skipped"]++
+				if r.failSeq == 0 {
+					r.failSeq = xseq
+				}
+			}
+			return fmt.Errorf("attempt %d of t%02d: %w (forwarded: %w)", k+1, i, r.sents[i], dag.ErrorTaskSkipped)
 		case "errctx":
 			if k >= R {
 				r.res.Faults["task_error_wraps_context_error"]++
@@ -707,7 +727,14 @@ func (r *runState) main() {
 	ctx, cancel := context.WithCancel(context.Background())
 	defer cancel()
 	if sc.Cancel.Deadline {
-		ctx = deadlineCtx{ctx}
+		at := simrt.Now().Add(24 * time.Hour)
+		switch sc.Cancel.Kind {
+		case "sleep":
+			at = simrt.Now().Add(time.Duration(sc.Cancel.At) * r.unit)
+		case "before-run":
+			at = simrt.Now().Add(-time.Second)
+		}
+		ctx = deadlineCtx{ctx, at}
 	}
 	if sc.OuterBuf {
 		// as if this Run were started by a task of an outer, buffering graph: the context already
@@ -841,6 +868,15 @@ func (r *runState) main() {
 		for _, v := range vs {
 			r.dfs[g] = append(r.dfs[g], string(v.ID))
 		}
+	}
+	if sc.DFSOnly {
+		r.res.Probes["deep_graph_sorted_only"]++
+		for g := range graphs {
+			if err := graphs[g].Validate(nil); err != nil && r.checkable() {
+				r.fail("C16", "O16d", 0, "Validate of an error-free graph of %d tasks returned %v", sc.N, err)
+			}
+		}
+		return
 	}
 	switch sc.Cancel.Kind {
 	case "before-run":
@@ -1343,7 +1379,8 @@ func (r *runState) posthocGraph(g int, final bool) {
 					matched = true
 				}
 			}
-			if errors.Is(e, dag.ErrorTaskSkipped) {
+			if !matched && errors.Is(e, dag.ErrorTaskSkipped) {
+				// (an entry that carries a task's own error is that task's failure, whatever else it wraps)
 				nSkipped++
 				matched = true
 			}
@@ -1429,6 +1466,10 @@ func (r *runState) posthocGraph(g int, final bool) {
 				continue
 			}
 			want := strings.Join(attemptOutput(a, g, e.task, e.attempt+100*(e.phase-1)), "")
+			if n := strings.Count(out, want); n == 0 && strings.Contains(r.lostPayload, want) {
+				// it was part of the one Write the sink rejected: it may be lost, or arrive with a later flush
+				continue
+			}
 			if strings.Count(out, want) != 1 {
 				r.fail("C15", "O15d", r.retSeq[g], "g%d: output of t%02d attempt %d is not one contiguous block in the writer's stream (wanted %s once in %s)", g, e.task, e.attempt+1, abbrev(want), abbrev(out))
 			}
